@@ -441,7 +441,9 @@ var tipNameFmt = []string{"t%d", "t%d", "t%d", "%d", "1e%d", "a b%d", "x/y%d", "
 
 var innerNames = []string{"N%d", "N%d", "x/y%d", "1/x%d", "in %d", "é%d", "n%d ", "a%d/1", "1e%dz", "0x%d", "-", "_%d", "p/q/r%d", "/%d", "%d/"}
 
-var comments = []string{"&x=1", "c", "a b", "&&NHX:S=x", "k;(),:[", "", " ", "[[", "1.5", "é;", "a\x00", "(", ";"}
+var comments = []string{"&x=1", "c", "a b", "&&NHX:S=x", "k;(),:[", "", " ", "[[", "1.5", "é;", "a\x00", "(", ";",
+	// runs of blanks: a WS token of the comment scanner (at the start, or right after a metacharacter) must come back whole
+	"  ", "   x", "\t\t", " \t ", "    ", "a(  b", "x,   y", ":  1", ")\t\tz", "[  [", "(\t \t)", "\n\n x", "k:\r\n v", "a  b", " ( , ) ", ";  ;"}
 
 func genComment(g *core.G) string { return comments[g.Intn(len(comments))] }
 
